@@ -57,6 +57,9 @@ type CaseSpec struct {
 	// BusyUnsub > 0: that many events are queued inside the adapter behind a
 	// callback that blocks the listener; the subscription is then unsubscribed
 	BusyUnsub int `json:"busyunsub,omitempty"`
+	// MaxPayload > 0: the server advertises this max_payload; larger requests
+	// fail in the client library after the reply subscription was made
+	MaxPayload int `json:"maxpayload,omitempty"`
 }
 
 type completion struct {
@@ -98,6 +101,7 @@ func runCase(cs CaseSpec) (viols []string, classes map[string]int) {
 		return []string{"INCONCLUSIVE listen: " + err.Error()}, classes
 	}
 	defer srv.Close()
+	srv.MaxPayload = cs.MaxPayload
 	states := make([]*reqState, len(cs.Reqs))
 	bySubj := map[string]*reqState{}
 	var smu sync.Mutex
@@ -258,6 +262,9 @@ func runCase(cs CaseSpec) (viols []string, classes map[string]int) {
 		if st.spec.Behaviour == "late" || st.spec.Behaviour == "race" || st.spec.Behaviour == "multi" {
 			hasLate = true
 		}
+		if cs.MaxPayload > 0 && st.spec.Payload > cs.MaxPayload {
+			hasLate = true // a second completion (timeout) of a request that failed to publish would come now
+		}
 	}
 	if hasLate {
 		time.Sleep(reqTimeout + 450*time.Millisecond - minDur(reqTimeout+450*time.Millisecond, time.Since(states[0].sentAt)))
@@ -295,6 +302,14 @@ func runCase(cs CaseSpec) (viols []string, classes map[string]int) {
 		c := comps[0]
 		el := c.at.Sub(st.sentAt)
 		allowed := map[string]bool{}
+		if cs.MaxPayload > 0 && st.spec.Payload > cs.MaxPayload && !(st.spec.Behaviour == "long" && len(st.subj)+1+29+1+digits(st.spec.Payload) > MaxControlLine) {
+			// refused by the client library: completes once, with that error
+			classes["payload_beyond_max_payload"]++
+			if !strings.HasPrefix(c.kind, "other:") {
+				viols = append(viols, fmt.Sprintf("%s exceeds max_payload %d but completed with %s", id, cs.MaxPayload, c.kind))
+			}
+			continue
+		}
 		switch st.spec.Behaviour {
 		case "reply", "multi":
 			allowed["reply"] = true
@@ -484,6 +499,9 @@ func genCase(t *rapid.T) CaseSpec {
 	}
 	if rapid.Bool().Draw(t, "events") {
 		cs.Events = rapid.IntRange(1, 60).Draw(t, "nevents")
+	}
+	if rapid.IntRange(0, 3).Draw(t, "smallmax") == 0 {
+		cs.MaxPayload = rapid.SampledFrom([]int{512, 1024, 5000}).Draw(t, "maxpayload")
 	}
 	if rapid.IntRange(0, 2).Draw(t, "busyunsub") == 0 {
 		cs.BusyUnsub = rapid.IntRange(1, 20).Draw(t, "nqueued")
